@@ -310,7 +310,8 @@ def library_state():
                                   for f in preproc.PREPROCESSORS]),
         "poc methods": fp([m.identifier for m in poc.POC_METHODS]),
         "registered models": fp(sorted(model.models_available)),
-        "regressors": fp(sorted(regressors.reg_dict)),
+        "regressors": fp(sorted((k, v[0].__name__, fp_unordered(dict(v[1])))
+                                for k, v in regressors.reg_dict.items())),
     }
 
 
